@@ -183,10 +183,16 @@ const CNT: u8 = 0x90;
 
 /// Main program + register-preserving ISR that bumps RAM[CNT]. Returns (image, address of the final spin loop).
 pub fn c04_program(rng: &mut Rng, with_di: bool) -> (Vec<u8>, u8) {
-    let mut p: Vec<u8> = vec![0x20, 0x0A]; // JR MAIN (MAIN at 0x0C)
-    // ISR at 2
-    p.extend(&[0x10, 0xFF, CNT, 0x10, 0x44, 0xF0, 0x1F, CNT, 0x14, 0x2C]);
-    assert_eq!(p.len(), 0x0C);
+    // ISR at 2; in a third of the programs it is "one-shot": it clears the key-edge enable bit with a
+    // read-modify-write of 0xF9 (the byte read there is the interrupt STATUS, with its pending bits set)
+    let oneshot = rng.chance(1, 3);
+    let mut p: Vec<u8> = vec![0x20, if oneshot { 0x0E } else { 0x0A }]; // JR MAIN
+    p.extend(&[0x10, 0xFF, CNT, 0x10, 0x44, 0xF0, 0x1F, CNT, 0x14]);
+    if oneshot {
+        p.extend(&[0xFB, 0x01, 0x6F, 0xF9]); // BITC (0xF9), 1
+    }
+    p.push(0x2C); // RETI
+    assert_eq!(p.len(), if oneshot { 0x10 } else { 0x0C });
     // MAIN
     p.extend(&[0xFB, 0xE8, 0x40]); // LDSP 0xE8
     let enable_at = rng.below(3);
@@ -332,6 +338,7 @@ pub fn run_c04(out: &mut Out, seed: u64, thorough: bool) {
             run_line(out, &mut s, &format!("edges {}", t));
             let micr = s.m.bus().is_key_edge_int_enabled();
             run_line(out, &mut s, "irq");
+            run_line(out, &mut s, "spec.micr");
             run_line(out, &mut s, "d");
             // first sampling point after the trigger: IEF as it will be when the end word is left
             let mut ie_at_sample = false;
@@ -378,6 +385,7 @@ pub fn run_c04(out: &mut Out, seed: u64, thorough: bool) {
             let micr1 = s.m.bus().is_key_edge_int_enabled();
             let ie1 = ie_at_next_sample(&s);
             run_line(out, &mut s, "irq");
+            run_line(out, &mut s, "spec.micr");
             // the second press comes after the first request has been looked at (taken or dropped) and
             // its routine has run: a press while the flip-flop is still set would merge with it
             let mut wait = 0;
@@ -393,6 +401,7 @@ pub fn run_c04(out: &mut Out, seed: u64, thorough: bool) {
             let micr2 = s.m.bus().is_key_edge_int_enabled();
             let ie2 = ie_at_next_sample(&s);
             run_line(out, &mut s, "irq");
+            run_line(out, &mut s, "spec.micr");
             run_line(out, &mut s, "d");
             run_line(out, &mut s, "edges 250");
             run_line(out, &mut s, "d");
